@@ -17,7 +17,7 @@ def gen_expr(rng, depth):
     if depth == 0 or rng.random() < 0.25:
         c = rng.random()
         if c < 0.4:
-            return ("lit", rng.choice([0, 1, 2, 3, 5, 7, 10, 100, 1000, 12345]))
+            return ("lit", rng.choice([0, 1, 2, 3, 5, 7, 10, 100, 1000, 12345, 4294967296, 10 ** 10, 3037000500, 9007199254740993]))
         if c < 0.85:
             return ("col", rng.choice(LEAVES))
         if c < 0.93:
